@@ -19,8 +19,8 @@ from . import common
 PROP = "C12"
 IPC, IPP, ABS, ZC = "aiohomekit.controller.ip.connection", "aiohomekit.controller.ip.pairing", "aiohomekit.controller.abstract", "aiohomekit.zeroconf"
 IDS = [(1, 10), (1, 11), (2, 10)]
-SUBSETS = [[0], [0, 1], [1, 2], [2, 0, 1]]
-SUBSETS_THOROUGH = [[0], [1], [2], [0, 1], [0, 2], [1, 2], [0, 1, 2], [2, 0, 1]]
+SUBSETS = [[0], [0, 1], [1, 2], [0, 2, 1]]  # the last one interleaves the two accessory ids
+SUBSETS_THOROUGH = [[0], [1], [2], [0, 1], [0, 2], [1, 2], [0, 2, 1], [2, 0, 1]]
 
 
 class Mods:
@@ -226,10 +226,20 @@ def build(tier, mutate=None):
     R = reals()
     depth = 4
     subsets = SUBSETS_THOROUGH if tier == "thorough" else SUBSETS
-    return [Unit("history/%d-events,%d-id-lists" % (depth, len(subsets)), history_unit(C, depth, subsets), history_unit(R, depth, subsets), split=True,
+    units = [Unit("history/%d-events,%d-id-lists" % (depth, len(subsets)), history_unit(C, depth, subsets), history_unit(R, depth, subsets), split=True,
                  bounds={"events": depth, "ids": IDS, "id sets": "%d lists over 3 ids on 2 accessory ids" % len(subsets), "listeners": "at most 3, each may raise",
                          "event bodies": BODIES, "reconnect": "clean, or cut off at its 1st / 2nd request"},
                  regions=["subscribe", "reconnected", "cut-off", "event-one", "event-empty", "event-not-json"], diff_sample=400, max_paths=3000000)]
+    if tier != "canary":
+        # events split across reads and coalesced with what follows: the byte stream up to event_received (units of C07)
+        from . import c07
+        core = dict(c07.core_templates())
+        C7 = c07.copies(mutate)
+        for nm in ("event+http", "event-cl"):
+            ms = core[nm]
+            units.append(Unit("event-stream/%s/cuts=2 (unit of C07)" % nm, c07.seg_unit(C7, ms, 2), c07.seg_unit(c07.real_conn, ms, 2), split=True,
+                              bounds={"stream_bytes": len(c07.render(ms)[0]), "cuts": "2, all positions (symbolic)"}, regions=["interior-cut"]))
+    return units
 
 
 CANARIES = [
